@@ -31,7 +31,9 @@ PURE_INIT_CALLEES = ('hash_from_bytes_sha3_512', 'to_string', 'to_owned', 'compr
                      'enumerate', 'add', 'as_bytes', 'deref', 'index_mut', 'index', 'get_or_init', 'new',
                      'from_uniform_bytes', 'update', 'finalize', 'default', 'into', 'drop', 'as_ref', 'borrow', 'branch', 'from_residual',
                      # string formatting of integers (format!): deterministic, no environment access
-                     'format', 'new_display', 'must_use', 'new_const', 'as_str', 'digest')
+                     'format', 'new_display', 'must_use', 'new_const', 'as_str', 'digest',
+                     # iterator plumbing (the closures they run are crate bodies and are scanned as well)
+                     'for_each', 'try_for_each', 'map', 'collect', 'fold', 'rev', 'skip', 'take', 'chain', 'cloned', 'copied', 'by_ref', 'enumerate')
 
 
 def run(ctx):
@@ -140,7 +142,7 @@ def run(ctx):
                               'the verifier instantiates the transcript wrapper with an RNG other than NullRng', ctx.where(b, bb))
                 else:
                     rep.violation('R-C18-3', 'R-C18-3/finalize/%s' % b.path, 'verifier finalises a transcript RNG with %s' % rng_ty, ctx.where(b, bb))
-        rep.floor('R-C18-3', 'RNG finalisations reachable from verify_batch', nfin, 3)
+        rep.floor('R-C18-3', 'RNG finalisations reachable from verify_batch', nfin, 2)   # the proof transcript's RNG and the weight RNG
         # no other randomness source reachable from the verifier
         for b in reach:
             for bb, t in ctx.calls(b):
